@@ -17,7 +17,7 @@ open CV
 def decodeDeviceCount (s : String) : Option Int :=
   if String.ofList (s.toList.map Char.toLower) = "all" then some (-1) else parseIntDecimal s.toList
 
-/-- `NanoCPUs.DecodeMapstructure` on a string (round 5, after `fix:` 3b56c47 / d32a901): `utils.ParseYAMLFloat(v, 64)` —
+/-- `NanoCPUs.DecodeMapstructure` on a string (round 5, after `fix:` 3b56c47 / c708a21): `utils.ParseYAMLFloat(v, 64)` —
     the very call `toFloat` makes (YAML integer spellings first, then `strconv.ParseFloat`; `Model/InterpFloat.lean`), i.e. the
     64-bit component of the opaque float parser; the result is then narrowed to `float32` by the conversion
     `NanoCPUs(f)` (the harness renders both sides through `float32`) -/
